@@ -549,7 +549,11 @@ func c09Src(ns []cnode) string {
 // c09Fixed: loops whose source is written in the template (list literals), and a loop body that
 // includes another template (the loop's bindings are a context like any other)
 func c09Fixed(cfg Config, res *Result) {
-	files := map[string]string{"row.tpl": "[{{ k }}{{ forloop.Counter }}]"}
+	files := map[string]string{"row.tpl": "[{{ k }}{{ forloop.Counter }}]",
+		"inner.tpl": "{% for y in l %}{{ forloop.Parentloop.Counter }}{{ y }}{% endfor %}",
+		"lib.tpl":   "{% macro lm(xs) export %}{% for y in xs %}{% if forloop.Parentloop %}P{% else %}-{% endif %}{{ y }}{{ forloop.Counter }}{% endfor %}{% endmacro %}"}
+	const mm = "{% macro mm(xs) %}{% for y in xs %}{% if forloop.Parentloop %}P{{ forloop.Parentloop.Counter }}{% else %}-{% endif %}{{ y }}{% endfor %}{% endmacro %}"
+	const rec = "{% macro rec(n) %}{% for y in l %}{% if forloop.Parentloop %}P{% endif %}{{ y }}{% if n %}{{ rec(0) }}{% endif %}{% endfor %}{% endmacro %}"
 	for _, c := range []struct{ src, want string }{
 		{"{% for x in [10, 9, 2] sorted %}{{ x }} {% endfor %}", "2 9 10 "},
 		{"{% for x in [10, 9, 2] reversed sorted %}{{ x }} {% endfor %}", "10 9 2 "},
@@ -560,6 +564,14 @@ func c09Fixed(cfg Config, res *Result) {
 		{`{% for k in m sorted %}{% include "row.tpl" %}{% endfor %}`, "[a1][b2]"},
 		{`{% for k, v in m sorted %}{% include "row.tpl" %}{{ v }}{% endfor %}`, "[a1]1[b2]2"},
 		{`{% for k in m sorted %}{% for j in l %}{% include "row.tpl" %}{% endfor %}{% endfor %}`, "[a1][a2][b1][b2]"},
+		// a macro's context is its own: a loop in its body is an outermost loop wherever the macro is called from
+		{mm + "{{ mm(l) }}|{% for j in l %}{{ mm(l) }};{% endfor %}", "-7-8|-7-8;-7-8;"},
+		{mm + "{% for j in l %}{% for i in l %}{{ mm(l) }}{{ forloop.Parentloop.Counter }};{% endfor %}{% endfor %}", "-7-81;-7-81;-7-82;-7-82;"},
+		{mm + "{% for j in l %}{{ forloop.Counter }}{{ mm(l) }}{{ forloop.Counter }}{% if forloop.Parentloop %}P{% endif %};{% endfor %}", "1-7-81;2-7-82;"},
+		{rec + "{% for j in l %}{{ rec(1) }};{% endfor %}", "778878;778878;"},
+		{`{% import "lib.tpl" lm %}{% for j in l %}{{ lm(l) }};{% endfor %}`, "-71-82;-71-82;"},
+		// (whether a loop of an included template counts the including loop as its parent is not fixed by the property: not checked)
+		{`{% include "inner.tpl" %}|{% for j in l %}{% endfor %}{% include "inner.tpl" %}`, "78|78"},
 	} {
 		res.Cases++
 		pc := ProgCase{Src: c.src, Loaders: []map[string]string{files}}
